@@ -783,11 +783,12 @@ def validate_marker_lookup(
                 else:
                     warnings.warn(warning_msg)
 
-            if len(query_gene_names.intersection(
-                        set(marker_lookup[parent_str]))) == 0:
-                error_msg += (f"'{parent_str}' has no valid markers "
-                              "in query gene set\n")
-                bad_parent_ct += 1
+        # (checked regardless of min_markers, which may be zero)
+        if len(query_gene_names.intersection(
+                    set(marker_lookup[parent_str]))) == 0:
+            error_msg += (f"'{parent_str}' has no valid markers "
+                          "in query gene set\n")
+            bad_parent_ct += 1
 
     if len(error_msg) > 0:
         if bad_parent_ct + skipped_parent_ct == len(all_parents):
